@@ -91,3 +91,27 @@ def cook(sdl, schema_name=None, **kw):
 
 def jdump(x):
     return json.dumps(x, sort_keys=False, separators=(",", ":"), default=repr)
+
+
+def snapshot_and_scribble(args, mark="__scribbled__"):
+    """What user code is entitled to do with the `args` a resolver / directive hook receives: keep it and modify it.
+    Returns a deep copy of `args` as received, then writes into the received dictionary and into every list / dictionary
+    it contains.  The objects belong to this one call: if the engine shares them (between calls, requests or with the
+    schema's default values), a later call receives the scribbles and its recorded arguments differ from the predicted ones."""
+    import copy
+    snap = copy.deepcopy(args)
+
+    def scr(v, depth=0):
+        if depth > 6:
+            return
+        if isinstance(v, list):
+            for x in v:
+                scr(x, depth + 1)
+            v.append(mark)
+        elif isinstance(v, dict):
+            for x in list(v.values()):
+                scr(x, depth + 1)
+            v[mark] = mark
+    if isinstance(args, dict):
+        scr(args)
+    return snap
